@@ -290,11 +290,11 @@ impl<
         assert_eq!(data.len(), self.inner.blocksize);
 
         if !self.inner.done[index] {
-            self.inner.done.set(index, true);
             self.datablocks
                 .store(index, data)
                 .await
                 .map_err(Error::DataStorageError)?;
+            self.inner.done.set(index, true);
         }
 
         Ok(())
